@@ -1092,6 +1092,259 @@ theorem attached_history_length (P : Nat) (ss0 : α) (rowOf : Nat → Step α) (
 
 end couplingHistory
 
+
+/-! ## round 4: histories with `reset()` — the host keeps its coupling models, the grain-growth model returns to the loaded state -/
+section hostReset
+open KawinV.Coupling
+
+/-- **reset of the host does not detach**: `PrecipitateBase.reset` / `GrainGrowthModel.reset` leave the coupling
+list and the calls made so far as they are and rewind the host index -/
+theorem reset_keeps_attachments (s : HSt) :
+    (applyHOp resetKeep s HOp.reset).models = s.models ∧ (applyHOp resetKeep s HOp.reset).log = s.log ∧
+    (applyHOp resetKeep s HOp.reset).n = 0 ∧ (applyHOp resetKeep s HOp.reset).g = s.g := by
+  simp [applyHOp, resetKeep]
+
+theorem hstep_updates (l : List Mdl) (a b : Nat) (m : Mdl) :
+    ((l.map (fun x => (a, b, x))).filter (fun e => e.2.2 = m)).map (fun e => (e.1, e.2.1))
+      = List.replicate (l.count m) (a, b) := by
+  induction l with
+  | nil => simp
+  | cons x l ih =>
+    by_cases h : x = m
+    · subst h; simp [List.replicate_succ, ih]
+    · simp [h, ih]
+
+/-- the log of update calls is the specification, for EVERY history of attach / clear / reset / step -/
+theorem hupdatesOf_hrun (s : HSt) (ops : List HOp) (m : Mdl) :
+    hupdatesOf (hrun resetKeep s ops) m = hupdatesOf s m ++ hexpected m (s.models.count m) s.g s.n ops := by
+  induction ops generalizing s with
+  | nil => simp [hrun, hexpected]
+  | cons o r ih =>
+    have hr : hrun resetKeep s (o :: r) = hrun resetKeep (applyHOp resetKeep s o) r := rfl
+    rw [hr, ih]
+    cases o with
+    | attach m' =>
+      by_cases h : m' = m
+      · subst h; simp [applyHOp, hexpected, hupdatesOf, Coupling.attach]
+      · simp [applyHOp, hexpected, hupdatesOf, Coupling.attach, h]
+    | clear => simp [applyHOp, hexpected, hupdatesOf]
+    | reset => simp [applyHOp, hexpected, hupdatesOf, resetKeep]
+    | step =>
+      simp only [applyHOp, hexpected, hupdatesOf, List.filter_append, List.map_append, List.append_assoc]
+      rw [hstep_updates]
+
+theorem countHSteps_cons_step (r : List HOp) : countHSteps (HOp.step :: r) = countHSteps r + 1 := by
+  simp [countHSteps]
+theorem countHSteps_cons_attach (m : Mdl) (r : List HOp) : countHSteps (HOp.attach m :: r) = countHSteps r := by
+  simp [countHSteps]
+theorem countHSteps_cons_clear (r : List HOp) : countHSteps (HOp.clear :: r) = countHSteps r := by
+  simp [countHSteps]
+theorem countHSteps_cons_reset (r : List HOp) : countHSteps (HOp.reset :: r) = countHSteps r := by
+  simp [countHSteps]
+
+theorem hexpected_not_attached (m : Mdl) (g n : Nat) (pre rest : List HOp) (h : HOp.attach m ∉ pre) :
+    hexpected m 0 g n (pre ++ rest) = hexpected m 0 (g + countHSteps pre) (hostIdx n pre) rest := by
+  induction pre generalizing g n with
+  | nil => simp [countHSteps, hostIdx]
+  | cons o r ih =>
+    have hr : HOp.attach m ∉ r := fun hh => h (List.mem_cons_of_mem _ hh)
+    cases o with
+    | attach m' =>
+      have hne : m' ≠ m := fun e => h (by simp [e])
+      simp only [List.cons_append, hexpected, if_neg hne, countHSteps_cons_attach, hostIdx]
+      exact ih g n hr
+    | clear =>
+      simp only [List.cons_append, hexpected, countHSteps_cons_clear, hostIdx]
+      exact ih g n hr
+    | reset =>
+      simp only [List.cons_append, hexpected, countHSteps_cons_reset, hostIdx]
+      exact ih g 0 hr
+    | step =>
+      simp only [List.cons_append, hexpected, countHSteps_cons_step, List.replicate_zero, List.nil_append, hostIdx]
+      rw [ih (g + 1) (n + 1) hr]; congr 1; omega
+
+/-- attached once, not cleared afterwards: one update per host step, at consecutive host steps — resets of the
+host anywhere in the history do not change that -/
+theorem hexpected_attached (m : Mdl) (g n : Nat) (post : List HOp) (h : HOp.attach m ∉ post) (hc : HOp.clear ∉ post) :
+    (hexpected m 1 g n post).map (·.1) = List.range' (g + 1) (countHSteps post) := by
+  induction post generalizing g n with
+  | nil => simp [countHSteps, hexpected]
+  | cons o r ih =>
+    have hr : HOp.attach m ∉ r := fun hh => h (List.mem_cons_of_mem _ hh)
+    have hcr : HOp.clear ∉ r := fun hh => hc (List.mem_cons_of_mem _ hh)
+    cases o with
+    | attach m' =>
+      have hne : m' ≠ m := fun e => h (by simp [e])
+      simp only [hexpected, if_neg hne, countHSteps_cons_attach]
+      exact ih g n hr hcr
+    | clear => exact absurd (List.mem_cons_self) hc
+    | reset =>
+      simp only [hexpected, countHSteps_cons_reset]
+      exact ih g 0 hr hcr
+    | step =>
+      simp only [hexpected, countHSteps_cons_step, List.replicate_one, List.singleton_append, List.map_cons]
+      rw [ih (g + 1) (n + 1) hr hcr, List.range'_succ]
+
+theorem hrun_append (rst : List Mdl → List Mdl) (s : HSt) (a b : List HOp) :
+    hrun rst s (a ++ b) = hrun rst (hrun rst s a) b := by simp [hrun, List.foldl_append]
+
+/-- **exactly one update per host step over histories**: a model attached once (anything before: other models,
+clears, resets, solve calls) and not cleared BY THE USER afterwards is updated exactly once at each of the host
+steps after its attachment, in order — however many `reset()` and solve calls of the host follow -/
+theorem one_entry_per_step_over_histories (pre post : List HOp) (m : Mdl)
+    (hpre : HOp.attach m ∉ pre) (hpost : HOp.attach m ∉ post) (hclear : HOp.clear ∉ post) :
+    (hupdatesOf (hrun resetKeep hinit (pre ++ HOp.attach m :: post)) m).map (·.1)
+      = List.range' (countHSteps pre + 1) (countHSteps post) := by
+  rw [hupdatesOf_hrun]
+  have h0 : hupdatesOf hinit m = [] := rfl
+  have h1 : List.count m hinit.models = 0 := rfl
+  have h2 : hinit.n = 0 := rfl
+  have h3 : hinit.g = 0 := rfl
+  rw [h0, h1, h2, h3, List.nil_append, hexpected_not_attached m _ _ pre _ hpre]
+  simp only [hexpected, if_true, Nat.zero_add]
+  exact hexpected_attached m _ _ post hpost hclear
+
+theorem updates_count_over_histories (pre post : List HOp) (m : Mdl)
+    (hpre : HOp.attach m ∉ pre) (hpost : HOp.attach m ∉ post) (hclear : HOp.clear ∉ post) :
+    (hupdatesOf (hrun resetKeep hinit (pre ++ HOp.attach m :: post)) m).length = countHSteps post := by
+  have h := congrArg List.length (one_entry_per_step_over_histories pre post m hpre hpost hclear)
+  simpa using h
+
+/-- the model is still attached at the end of such a history -/
+theorem attached_stays_attached (s : HSt) (post : List HOp) (m : Mdl) (hm : m ∈ s.models) (hclear : HOp.clear ∉ post) :
+    m ∈ (hrun resetKeep s post).models := by
+  induction post generalizing s with
+  | nil => exact hm
+  | cons o r ih =>
+    have hcr : HOp.clear ∉ r := fun hh => hclear (List.mem_cons_of_mem _ hh)
+    have hr : hrun resetKeep s (o :: r) = hrun resetKeep (applyHOp resetKeep s o) r := rfl
+    rw [hr]
+    apply ih _ _ hcr
+    cases o with
+    | attach m' => simp [applyHOp, Coupling.attach, hm]
+    | clear => exact absurd (List.mem_cons_self) hclear
+    | reset => simpa [applyHOp, resetKeep] using hm
+    | step => simpa [applyHOp] using hm
+
+theorem attached_after_resets (pre post : List HOp) (m : Mdl) (hclear : HOp.clear ∉ post) :
+    m ∈ (hrun resetKeep hinit (pre ++ HOp.attach m :: post)).models := by
+  rw [hrun_append]
+  have hr : hrun resetKeep (hrun resetKeep hinit pre) (HOp.attach m :: post)
+      = hrun resetKeep (applyHOp resetKeep (hrun resetKeep hinit pre) (HOp.attach m)) post := rfl
+  rw [hr]
+  exact attached_stays_attached _ post m (by simp [applyHOp, Coupling.attach]) hclear
+
+/-- **strength history over histories**: a StrengthModel (fresh: `none`) fed with the rows of exactly the host
+steps at which it was updated has one row per host step since its attachment plus the initial row, over any
+number of solve calls and host resets -/
+theorem strength_history_over_histories {α : Type} [Zero α] (P : Nat) (ss0 : α) (rowOf : Nat × Nat → Strength.Step α)
+    (pre post : List HOp) (m : Mdl)
+    (hpre : HOp.attach m ∉ pre) (hpost : HOp.attach m ∉ post) (hclear : HOp.clear ∉ post) :
+    histLen (runSolve P ss0 none ((hupdatesOf (hrun resetKeep hinit (pre ++ HOp.attach m :: post)) m).map rowOf))
+      = if countHSteps post = 0 then 0 else countHSteps post + 1 := by
+  have hl := updates_count_over_histories pre post m hpre hpost hclear
+  have h := history_length P ss0 [(hupdatesOf (hrun resetKeep hinit (pre ++ HOp.attach m :: post)) m).map rowOf]
+  simp only [runSolves, List.foldl_cons, List.foldl_nil, List.map_cons, List.map_nil, List.length_map,
+    List.sum_cons, List.sum_nil, Nat.add_zero, hl] at h
+  exact h
+
+theorem ggClock_eq {α : Type} [AddCommMonoid α] (dt : Nat → α) (c : α) (upd : List (Nat × Nat)) :
+    ggClock dt c upd = c + ((upd.map (·.1)).map dt).sum := by
+  unfold ggClock
+  induction upd generalizing c with
+  | nil => simp
+  | cons e r ih => simp [List.foldl_cons, ih, add_assoc]
+
+/-- **grain-growth clock over histories**: the clock of an attached GrainGrowthModel has advanced by the
+durations of exactly the host steps since its attachment = the host time elapsed, over resets of the host -/
+theorem grain_clock_over_histories {α : Type} [AddCommMonoid α] (dt : Nat → α) (c : α) (pre post : List HOp) (m : Mdl)
+    (hpre : HOp.attach m ∉ pre) (hpost : HOp.attach m ∉ post) (hclear : HOp.clear ∉ post) :
+    ggClock dt c (hupdatesOf (hrun resetKeep hinit (pre ++ HOp.attach m :: post)) m)
+      = c + ((List.range' (countHSteps pre + 1) (countHSteps post)).map dt).sum := by
+  rw [ggClock_eq, one_entry_per_step_over_histories pre post m hpre hpost hclear]
+
+/-- witness: with a reset that detaches, a model attached BEFORE `host.reset()` gets no update at the two host
+steps after the reset (kawin's reset: updated at all three steps, host indices 1, 1, 2); its strength history
+stays at 2 rows instead of 4 -/
+theorem reset_detaching_loses_updates :
+    hupdatesOf (hrun resetDetach hinit [.attach ⟨0, 7⟩, .attach ⟨1, 5⟩, .step, .reset, .step, .step]) ⟨0, 7⟩ = [(1, 1)] ∧
+    hupdatesOf (hrun resetKeep hinit [.attach ⟨0, 7⟩, .attach ⟨1, 5⟩, .step, .reset, .step, .step]) ⟨0, 7⟩
+      = [(1, 1), (2, 1), (3, 2)] ∧
+    (hrun resetDetach hinit [.attach ⟨0, 7⟩, .attach ⟨1, 5⟩, .step, .reset, .step, .step]).models = [] := by
+  decide
+
+end hostReset
+
+section grainLoad
+open KawinV.Coupling
+variable {α : Type} [Field α] [LinearOrder α] [IsStrictOrderedRing α]
+
+/-- the backup is only written by the loaders -/
+theorem bak_invariant (bf : Bool) (grid : GState α) (s : GG α) (ops : List (GOp α))
+    (h : ∀ o ∈ ops, o.isLoad = false) : (runG bf grid s ops).bak = s.bak := by
+  induction ops generalizing s with
+  | nil => rfl
+  | cons o r ih =>
+    have hr : runG bf grid s (o :: r) = runG bf grid (applyG bf grid s o) r := rfl
+    rw [hr, ih _ (fun o' ho' => h o' (List.mem_cons_of_mem _ ho'))]
+    cases o with
+    | load raw => have := h _ List.mem_cons_self; simp [GOp.isLoad] at this
+    | reset => rfl
+    | evolve st t => rfl
+
+theorem runG_append (bf : Bool) (grid : GState α) (s : GG α) (a b : List (GOp α)) :
+    runG bf grid s (a ++ b) = runG bf grid (runG bf grid s a) b := by simp [runG, List.foldl_append]
+
+/-- **reset ∘ anything ∘ load = the state right after the load**: whatever solve calls, coupled host steps and
+further resets follow a load, `reset()` brings back exactly the distribution and grid the load left (and clock 0) -/
+theorem reset_restores_loaded (grid : GState α) (raw : Nat → α) (s : GG α) (mid : List (GOp α))
+    (h : ∀ o ∈ mid, o.isLoad = false) :
+    (runG false grid (ggLoad false grid raw s) (mid ++ [GOp.reset])).cur = (ggLoad false grid raw s).cur ∧
+    (runG false grid (ggLoad false grid raw s) (mid ++ [GOp.reset])).clock = [0] := by
+  rw [runG_append]
+  have hb := bak_invariant false grid (ggLoad false grid raw s) mid h
+  constructor
+  · show (ggReset _).cur = _
+    simp only [ggReset, hb]; rfl
+  · rfl
+
+/-- **a loaded distribution has grain volume 1** (either loader, non-empty raw distribution) -/
+theorem loaded_normalised (bf : Bool) (grid : GState α) (raw : Nat → α) (s : GG α)
+    (h : moment 3 grid.n raw grid.size ≠ 0) : ggVolume (ggLoad bf grid raw s) = 1 := by
+  unfold ggVolume ggLoad
+  exact normalize_third_moment grid.n raw grid.size h
+
+/-- … and so has the state after every later `reset()` -/
+theorem reset_normalised (grid : GState α) (raw : Nat → α) (s : GG α) (mid : List (GOp α))
+    (h : ∀ o ∈ mid, o.isLoad = false) (hv : moment 3 grid.n raw grid.size ≠ 0) :
+    ggVolume (runG false grid (ggLoad false grid raw s) (mid ++ [GOp.reset])) = 1 := by
+  have hr := (reset_restores_loaded grid raw s mid h).1
+  unfold ggVolume at *
+  rw [hr]
+  exact loaded_normalised false grid raw s hv
+
+/-- the variant that takes the backup before Normalize: reset brings back the RAW distribution … -/
+theorem backupFirst_reset_restores_raw (grid : GState α) (raw : Nat → α) (s : GG α) (mid : List (GOp α))
+    (h : ∀ o ∈ mid, o.isLoad = false) :
+    (runG true grid (ggLoad true grid raw s) (mid ++ [GOp.reset])).cur.psd = raw := by
+  rw [runG_append]
+  have hb := bak_invariant true grid (ggLoad true grid raw s) mid h
+  show (ggReset _).cur.psd = _
+  simp only [ggReset, hb]; rfl
+
+/-- … witness: two classes of size 1 holding 2 grains each: volume 1 after the load with either order, after
+`reset()` volume 1 with kawin's order and 4 (the raw counts) with the backup taken before Normalize -/
+theorem backup_before_normalise_loses_volume :
+    let grid : GState ℚ := ⟨2, fun _ => 0, fun i => i, fun _ => 1⟩
+    let raw : Nat → ℚ := fun _ => 2
+    ggVolume (ggLoad true grid raw (ggInit grid)) = 1 ∧
+    ggVolume (runG false grid (ggInit grid) [.load raw, .evolve ⟨2, fun _ => 7, fun i => i, fun _ => 1⟩ 5, .reset]) = 1 ∧
+    ggVolume (runG true grid (ggInit grid) [.load raw, .evolve ⟨2, fun _ => 7, fun i => i, fun _ => 1⟩ 5, .reset]) = 4 := by
+  refine ⟨?_, ?_, ?_⟩ <;>
+    norm_num [ggVolume, runG, applyG, ggLoad, ggReset, ggEvolve, ggInit, Grain.normalize, moment, sumTo, npow, List.range, List.range.loop]
+
+end grainLoad
+
 /-! ### non-vacuity: concrete instances of the hypothesis sets -/
 
 example : clip (fun _ : ℚ => true) (-3) = 0 ∧ clip (fun _ : ℚ => true) 5 = 5 := by
@@ -1122,5 +1375,20 @@ example : Coupling.updatesOf (Coupling.run Coupling.attach Coupling.init
   rw [attached_updated_every_step _ _ _ (by decide) (by decide) (by decide)]; decide
 example : Coupling.attach [⟨0, 7⟩, ⟨2, 5⟩] ⟨1, 7⟩ = [⟨0, 7⟩, ⟨2, 5⟩, ⟨1, 7⟩] ∧ Coupling.attachDedup [⟨0, 7⟩, ⟨2, 5⟩] ⟨1, 7⟩ = [⟨2, 5⟩, ⟨1, 7⟩] := by
   decide
+-- the hypotheses of one_entry_per_step_over_histories: another model and a reset BEFORE the attachment, two resets, an attach of a
+-- same-class model and solve calls after it; host steps ever 2, 3, 4, 5
+example : (Coupling.hupdatesOf (Coupling.hrun Coupling.resetKeep Coupling.hinit
+    ([.attach ⟨0, 7⟩, .step, .reset] ++ Coupling.HOp.attach ⟨1, 7⟩ :: [.step, .reset, .step, .attach ⟨2, 7⟩, .step, .reset, .step])) ⟨1, 7⟩).map (·.1)
+    = [2, 3, 4, 5] := by
+  rw [one_entry_per_step_over_histories _ _ _ (by decide) (by decide) (by decide)]; decide
+example : Coupling.hupdatesOf (Coupling.hrun Coupling.resetKeep Coupling.hinit
+    [.attach ⟨0, 7⟩, .step, .reset, .attach ⟨1, 7⟩, .step, .reset, .step, .step]) ⟨1, 7⟩ = [(2, 1), (3, 1), (4, 2)] := by
+  decide
+-- the hypotheses of reset_restores_loaded / reset_normalised: a history without a second load, a non-empty raw distribution
+example : ∀ o ∈ ([.evolve ⟨2, fun _ => 7, fun i => i, fun _ => 1⟩ 5, .reset, .evolve ⟨3, fun _ => 1, fun i => i, fun _ => 2⟩ 9] : List (Coupling.GOp ℚ)),
+    o.isLoad = false := by
+  intro o ho; simp at ho; rcases ho with h | h | h <;> subst h <;> rfl
+example : moment 3 2 (fun _ => (2:ℚ)) (fun _ => 1) ≠ 0 := by
+  norm_num [moment, sumTo, npow, List.range, List.range.loop]
 
 end KawinV.Props.C18
